@@ -240,8 +240,179 @@ def compare(chk, v, tname, W, R, where, vn):
                     guards.setdefault((p_[1], p_[2]), []).append(rw(o_))
     problems = []
     nontriv = [0]
+    expanded = []
 
     def cmp_seq(ws, rs, loopmap, ctx):
+        """structural comparison first (a proof for all dimensions); when the two op trees differ in shape -- loops unrolled, peeled,
+        split, written with other bounds -- both are expanded to their sequences of transfers for small concrete dimensions and
+        compared transfer by transfer (sizes, destinations, tags), which decides whether they describe the same byte stream"""
+        saved = len(problems)
+        nt0 = nontriv[0]
+        _cmp_struct(ws, rs, loopmap, ctx)
+        if len(problems) > saved:
+            res = expand_compare(ws, rs, loopmap, ctx)
+            if res is True:
+                del problems[saved:]
+            elif isinstance(res, list):
+                problems[saved:] = res
+            # res is None: expansion not possible, the structural report stands
+
+    class _NoExpansion(Exception):
+        pass
+
+    def expand_compare(ws, rs, loopmap, ctx):
+        from sa.secretflow import eval_term
+        wvars, rvars = set(), set()
+
+        def loopvars(ops, acc):
+            for o in ops:
+                if o["op"] == "rep":
+                    acc.add(o["var"])
+                    loopvars(o["body"], acc)
+                elif o["op"] == "if":
+                    loopvars(o["then"], acc); loopvars(o["else"], acc)
+        loopvars(ws, wvars); loopvars(rs, rvars)
+        wt = lambda t: wv(t)
+        rt = lambda t: sym.subst(rw(t), loopmap)
+        # dimension atoms: everything a bound / condition mentions that is not a loop variable
+        dims = []
+
+        def leaves(t):
+            """maximal non-arithmetic sub-terms (fields, property values, symbols): the quantities a bound depends on"""
+            if not isinstance(t, tuple) or not t:
+                return []
+            if t[0] in ("int", "float"):
+                return []
+            if t[0] == "poly":
+                return [x for m, _ in t[1] for a in m for x in leaves(a)]
+            if t[0] == "op":
+                return leaves(t[2]) + leaves(t[3])
+            if t[0] == "un":
+                return leaves(t[2])
+            if t[0] == "cast":
+                return leaves(t[2])
+            if t[0] == "cond":
+                return leaves(t[1]) + leaves(t[2]) + leaves(t[3])
+            if t[0] == "call" and t[1] == "$loop_end":
+                return [x for y in t[2][:3] for x in leaves(y)]
+            return [t]
+
+        def collect(ops, tr, lv):
+            for o in ops:
+                ts = []
+                if o["op"] == "rep":
+                    ts = [o["lo"], o["hi"], o["step"]]
+                    collect(o["body"], tr, lv)
+                elif o["op"] == "if":
+                    ts = [o["cond"]]
+                    collect(o["then"], tr, lv); collect(o["else"], tr, lv)
+                elif o["op"] == "bin":
+                    ts = [o["size"]]
+                for t in ts:
+                    for a in leaves(tr(t)):
+                        if a not in lv and a not in dims:
+                            dims.append(a)
+        collect(ws, wt, wvars | set(loopmap.values()))
+        collect(rs, rt, rvars | set(loopmap.values()))
+        dims.sort(key=repr)
+        if len(dims) > 12:
+            import os
+            if os.environ.get("VERIF_DEBUG"): print("DIMS", ctx, [sym.show(d) for d in dims])
+            return None
+
+        def trace(ops, tr, env):
+            out = []
+
+            def go(ops, env):
+                for i, o in enumerate(ops):
+                    if o["op"] == "rep":
+                        lo, hi, st = eval_term(tr(o["lo"]), env), eval_term(tr(o["hi"]), env), eval_term(tr(o["step"]), env)
+                        if lo is None or hi is None or not st:
+                            raise _NoExpansion("loop bound %s" % sym.show(tr(o["hi"]))[:80])
+                        x = lo
+                        n_it = 0
+                        while {"<": x < hi, "<=": x <= hi, ">": x > hi, ">=": x >= hi, "!=": x != hi}[o["cmp"]]:
+                            e2 = dict(env)
+                            e2[o["var"]] = x
+                            go(o["body"], e2)
+                            x += st
+                            n_it += 1
+                            if n_it > 4096:
+                                raise _NoExpansion("loop does not terminate on the grid")
+                    elif o["op"] == "if":
+                        c_ = eval_term(tr(o["cond"]), env)
+                        if c_ is None:
+                            raise _NoExpansion("condition %s" % sym.show(tr(o["cond"]))[:80])
+                        go(o["then"] if c_ else o["else"], env)
+                    elif o["op"] in ("bin", "text"):
+                        out.append((o, dict(env), ops, i))
+                    else:
+                        raise _NoExpansion("op %s" % o["op"])
+            go(ops, env)
+            return out
+
+        def inst(t, env):
+            return sym.subst(t, {k_: I(v_) for k_, v_ in env.items() if isinstance(v_, int)})
+        assignments = [{d: 2 + (k_ % 2) for k_, d in enumerate(dims)}, {d: 3 - (k_ % 2) for k_, d in enumerate(dims)}, {d: 1 for d in dims}]
+        checked = 0
+        for asg in assignments:
+            try:
+                tw = trace(ws, wt, dict(asg))
+                trr = trace(rs, rt, dict(asg))
+            except _NoExpansion as e_:
+                import os
+                if os.environ.get("VERIF_DEBUG"): print("NOEXP", ctx, e_)
+                return None
+            dimtxt = ", ".join("%s=%d" % (sym.show(d)[:30], asg[d]) for d in dims[:6])
+            if len(tw) != len(trr):
+                k_ = min(len(tw), len(trr))
+                extra = (tw if len(tw) > len(trr) else trr)[k_]
+                return ["%s: with %s the writer makes %d transfers and the reader %d; first unmatched: %s at line %s" % (
+                    ctx, dimtxt, len(tw), len(trr), show_op(extra[0], canon)[:100], extra[0]["l"])]
+            for (w, ew, wops, wi), (r, er, rops, ri) in zip(tw, trr):
+                if w["op"] != r["op"]:
+                    return ["%s: with %s: writer %s (line %s) is matched by reader %s (line %s)" % (ctx, dimtxt, show_op(w)[:80], w["l"], show_op(r, canon)[:80], r["l"])]
+                checked += 1
+                if w["op"] == "text":
+                    sub = []
+                    before = len(problems)
+                    _cmp_struct([w], [r], loopmap, ctx)
+                    if len(problems) > before:
+                        sub = problems[before:]
+                        del problems[before:]
+                        return sub
+                    continue
+                sw, sr = eval_term(inst(wt(w["size"]), ew), asg), eval_term(inst(rt(r["size"]), er), asg)
+                if sw is None or sr is None:
+                    import os
+                    if os.environ.get("VERIF_DEBUG"): print("SIZE", ctx, sym.show(inst(wt(w["size"]), ew)), sym.show(inst(rt(r["size"]), er)))
+                    return None
+                if sw != sr:
+                    return ["%s: with %s: %d bytes written at line %s (%s), %d read at line %s" % (ctx, dimtxt, sw, w["l"], sym.show(w["ptr"])[:60], sr, r["l"])]
+                wp, rp = inst(wa(w["ptr"]), ew), inst(rt(r["ptr"]), er)
+                wc = glob_const(v, w["ptr"])
+                if wc is not None:
+                    cell = rp[1] if rp[0] == "addr" else rp
+                    tc = tags.get(cell)
+                    if tc is None or tc[0] != wc or not tc[1]:
+                        return ["%s (line %s): tag %d written; the reader %s" % (ctx, r["l"], wc, "never tests what it read" if tc is None else
+                                                                         "expects %d" % tc[0] if tc[0] != wc else "is not stopped by a mismatch")]
+                    continue
+                wr_, rr_ = sym.root_of(wp), sym.root_of(rp)
+                if wr_ is not None and wr_[0] == "var" and rr_ is not None and rr_[0] == "var":
+                    nxt = wops[wi + 1] if wi + 1 < len(wops) else None
+                    why = summary_is_max(W["eff"], wr_, nxt)
+                    if why:
+                        return ["%s (line %s): %s" % (ctx, w["l"], why)]
+                    continue
+                if wp != rp:
+                    return ["%s: with %s: transfer %d: writer stores %s (line %s), reader fills %s (line %s)" % (
+                        ctx, dimtxt, checked, sym.show(wp)[:70], w["l"], sym.show(rp)[:70], r["l"])]
+        nontriv[0] += 1
+        expanded.append("%s: op trees of different shape describe the same transfers (%d compared on 3 assignments of %d dimensions)" % (ctx, checked, len(dims)))
+        return True
+
+    def _cmp_struct(ws, rs, loopmap, ctx):
         if len(ws) != len(rs):
             problems.append("%s: writer has %d ops, reader %d: W=[%s] R=[%s]" % (
                 ctx, len(ws), len(rs), "; ".join(show_op(o) for o in ws)[:300], "; ".join(show_op(o, canon) for o in rs)[:300]))
@@ -312,7 +483,7 @@ def compare(chk, v, tname, W, R, where, vn):
                     problems.append("%s (line %s/%s): loop %s %s %s written (= %s after the round trip), %s %s %s read" % (
                         c, w["l"], r["l"], sym.show(w["lo"]), w["cmp"], sym.show(w["hi"]), sym.show(wb[2]),
                         sym.show(rb[0]), r["cmp"], sym.show(rb[2])))
-                cmp_seq(w["body"], r["body"], lm2, c)
+                _cmp_struct(w["body"], r["body"], lm2, c)
             elif w["op"] == "if":
                 problems.append("%s: undecided branch in the op sequence (%s)" % (c, show_op(w)))
             else:
